@@ -290,4 +290,7 @@ def to_chain_structure(qc, setup="linear"):
             # such as measurement or global phase.
             qc_t.gates.append(gate)
 
+    # the returned circuit gets its own gate objects
+    qc_t.gates = deepcopy(qc_t.gates)
+
     return qc_t
